@@ -146,13 +146,26 @@ def run_case(rep, args, case, rng):
         # ---- quiescence: heal, deliver everything outstanding (everything at least once; in dup mode once more in another order)
         partition = None
         rounds = 0
-        while inflight and rounds < 10000:
+        quiet = False
+        while rounds < 60:
             rounds += 1
-            e = inflight[0] if mode == "exactly-once-fifo" else rng.choice(inflight)
-            nodes[e[0]].deliver(e[1])
-            e[2] += 1
-            rep.count("deliveries")
-            inflight.remove(e)
+            while inflight:
+                e = inflight[0] if mode == "exactly-once-fifo" else rng.choice(inflight)
+                nodes[e[0]].deliver(e[1])
+                e[2] += 1
+                rep.count("deliveries")
+                inflight.remove(e)
+            # a node only shows what it printed in reaction to deliveries when it is next asked something
+            for name, node in nodes.items():
+                node.request(dict(type="read", key=keys[0]))
+                collect(node)
+            if not inflight:
+                quiet = True
+                break
+        rep.maxc("rounds_to_quiescence", rounds)
+        if not quiet:
+            rep.violation("C06|e2e-maelstrom|replication-traffic-never-stops|mode=%s" % mode,
+                          "after the clients stopped, 60 rounds of delivering everything in flight still leave %d messages in flight" % len(inflight), dict(wit))
         reads = {}
         for name, node in nodes.items():
             for k in keys:
